@@ -1,5 +1,6 @@
 (** C06: packrat memoisation is invisible except in speed. *)
-From PegV Require Import Base.Tac Spec.Syntax Spec.Peg Model.Machine Model.Gen Proofs.Top Properties.Example.
+From PegV Require Import Base.Tac Spec.Syntax Spec.Peg Model.Machine Model.Gen Model.Analyses Model.Emit Model.SEmit Model.Exec
+  Proofs.Top Proofs.SEmitFile Properties.Example.
 
 (** With memoisation enabled or disabled (DisableMemoize), from any earlier states, the machine
     returns the same verdict, the same position and tokens on success and the same error token on
@@ -17,6 +18,22 @@ Theorem C06_memo_invisible :
       (b = false -> maxtok st1 = maxtok st2).
 Proof. exact c06_memo_invisible. Qed.
 Print Assumptions C06_memo_invisible.
+
+(** The same for the statements of the generated file (Model/SEmit.v under the goto semantics of Model/Exec.v, see
+    C01): whatever the entry's function returns with the memo table in use equals what it returns with
+    DisableMemoize, from any two earlier parser states (and likewise for two -inline settings). *)
+Theorem C06_generated_code_memo_invisible :
+  forall g ptx buf penv, good_grammar g -> good_buf buf -> good_switches g ->
+  forall memo1 inline1 memo2 inline2 n r st1 st2 rr,
+    deep_table_b g inline1 = true -> slot_ok g inline1 r -> deep_table_b g inline2 = true -> slot_ok g inline2 r ->
+    reached (count_rules g) r = true -> peg_parse g ptx buf penv (S n) r = Some rr ->
+    forall res1 res2,
+      xcall buf penv (mk_opts true memo1 inline1 g) (gen_fn g ptx inline1) r (reset st1) res1 ->
+      xcall buf penv (mk_opts true memo2 inline2 g) (gen_fn g ptx inline2) r (reset st2) res2 ->
+      exists b s1 s2, res1 = Ret b s1 /\ res2 = Ret b s2 /\
+        (b = true -> pos s1 = pos s2 /\ live s1 = live s2) /\ (b = false -> maxtok s1 = maxtok s2).
+Proof. exact generated_code_options_invisible. Qed.
+Print Assumptions C06_generated_code_memo_invisible.
 
 (** non-vacuity: on "aby" rule R1 is re-entered at offset 0 after backtracking: with memoisation the
     second and third entries are memo hits; both machines agree *)
